@@ -5,7 +5,7 @@
    atomic steps (sync.Map.Load / LoadOrStore, channel send / receive / close,
    select).  The transition systems are tied to the source by the regenerated
    operation skeletons below. *)
-From Verif Require Import Base.GoPrim Base.Skel Gen.ConcSkel Model.Sync Proofs.SyncProofs.
+From Verif Require Import Base.GoPrim Base.Skel Gen.ConcSkel Model.ExpectedSkel Model.Sync Proofs.SyncProofs.
 
 (* the source still has the synchronisation structure the models were written for *)
 Theorem C17_skeleton :
